@@ -167,7 +167,7 @@ def _fresh_checker():
 
 
 def expand_unions(pairs: list[dict]) -> list[dict]:
-    """Steps of a history for the pairs, each union pair followed by the checks of its members (laws UnionLeft /
+    """Steps of a history for the pairs, each union pair preceded by the checks of its members (laws UnionLeft /
     UnionRight relate their verdicts); the member checks are ordinary steps of the same history."""
     steps = []
     for p in pairs:
@@ -178,8 +178,8 @@ def expand_unions(pairs: list[dict]) -> list[dict]:
             parts = [{"a": m, "b": b} for m in a["ms"]]
         else:
             parts = []
-        steps.append({**p, "nparts": len(parts)})
         steps += [{**q, "nparts": 0} for q in parts]
+        steps.append({**p, "nparts": len(parts)})
     return steps
 
 
@@ -199,7 +199,8 @@ def observe_history(arg):
             rec["fresh"] = s["fresh"]
         steps.append(rec)
     for i, s in enumerate(h["steps"]):
-        steps[i]["parts"] = [steps[i + 1 + j]["real"] for j in range(s.get("nparts", 0))]
+        n = s.get("nparts", 0)
+        steps[i]["parts"] = [steps[i - n + j]["real"] for j in range(n)]
     return {"tid": tid, "kind": "phist", "steps": steps, "src": h.get("src", "")}
 
 
